@@ -353,6 +353,8 @@ class LocationTable:
         DuplicatedPacketException
             If the packet is duplicated.
         """
+        # Expired entries must not be revived (with their neighbour flag) by this packet
+        self.refresh_table()
         with self.loc_t_lock:
             entry = self.loc_t.get(position_vector.gn_addr)
             if entry is None:
@@ -385,6 +387,8 @@ class LocationTable:
         DuplicatedPacketException
             If the packet is duplicated.
         """
+        # Expired entries must not be revived (with their neighbour flag) by this packet
+        self.refresh_table()
         so_pv = guc_extended_header.so_pv
         with self.loc_t_lock:
             entry: LocationTableEntry | None = self.get_entry(so_pv.gn_addr)
@@ -424,6 +428,8 @@ class LocationTable:
         DuplicatedPacketException
             If the packet is duplicated.
         """
+        # Expired entries must not be revived (with their neighbour flag) by this packet
+        self.refresh_table()
         with self.loc_t_lock:
             entry: LocationTableEntry | None = self.get_entry(
                 tsb_extended_header.so_pv.gn_addr)
@@ -460,6 +466,8 @@ class LocationTable:
         DuplicatedPacketException
             If the packet is duplicated.
         """
+        # Expired entries must not be revived (with their neighbour flag) by this packet
+        self.refresh_table()
         so_pv = gbc_extended_header.so_pv
         with self.loc_t_lock:
             entry: LocationTableEntry | None = self.get_entry(so_pv.gn_addr)
@@ -502,6 +510,8 @@ class LocationTable:
         DuplicatedPacketException
             If the packet is duplicated.
         """
+        # Expired entries must not be revived (with their neighbour flag) by this packet
+        self.refresh_table()
         so_pv = ls_request_header.so_pv
         with self.loc_t_lock:
             entry: LocationTableEntry | None = self.get_entry(so_pv.gn_addr)
@@ -544,6 +554,8 @@ class LocationTable:
         DuplicatedPacketException
             If the packet is duplicated.
         """
+        # Expired entries must not be revived (with their neighbour flag) by this packet
+        self.refresh_table()
         so_pv = ls_reply_header.so_pv
         with self.loc_t_lock:
             entry: LocationTableEntry | None = self.get_entry(so_pv.gn_addr)
@@ -582,6 +594,8 @@ class LocationTable:
         DuplicatedPacketException
             If the packet is duplicated.
         """
+        # Expired entries must not be revived (with their neighbour flag) by this packet
+        self.refresh_table()
         with self.loc_t_lock:
             entry: LocationTableEntry | None = self.get_entry(
                 gbc_extended_header.so_pv.gn_addr)
